@@ -449,6 +449,10 @@ void checkAfterRebuild(RunState& rs, IWorld& w, const std::map<std::pair<int, lo
                     break;
                 }
             }
+            for (int d = 0; d < 3; ++d) if (l.coord[size_t(d)] < 0 || double(l.coord[size_t(d)]) >= lwDiv) {
+                ctx.addViolation("rebuild:binning", "outside-grid", "after rebuild a leaf lies outside the grid of the leaf level");
+                break;
+            }
             for (int d = 0; d < 3; ++d) {
                 const double rel = ctx.inputs[l.tree][size_t(oi)][size_t(d)] - ctx.corner[d];
                 const double lw = ctx.width[d] / lwDiv;
